@@ -313,13 +313,25 @@ func GenOffers(r *rand.Rand) []string {
 		}
 		out = append(out, o)
 	}
-	if r.Intn(8) == 0 {
-		out = append(out, out[r.Intn(len(out))]) // duplicate
+	insert := func(o string) {
+		// anywhere in the list: the offers that follow a repeated type matter as much as the ones before it
+		k := r.Intn(len(out) + 1)
+		out = append(out, "")
+		copy(out[k+1:], out[k:])
+		out[k] = o
 	}
-	if r.Intn(8) == 0 {
+	if r.Intn(6) == 0 {
+		insert(out[r.Intn(len(out))]) // duplicate
+	}
+	if r.Intn(6) == 0 {
 		// the same type twice, once with parameters
-		j := r.Intn(len(out))
-		out = append(out, NormOffer(out[j])+OfferParams[r.Intn(2)])
+		insert(NormOffer(out[r.Intn(len(out))]) + OfferParams[r.Intn(2)])
+	}
+	if r.Intn(12) == 0 {
+		// ... or several times, with different parameters
+		o := NormOffer(out[r.Intn(len(out))])
+		insert(o + OfferParams[r.Intn(len(OfferParams))])
+		insert(o + OfferParams[r.Intn(len(OfferParams))])
 	}
 	return out
 }
